@@ -192,61 +192,86 @@ def iv_eval(e, env):
 
 
 def rule_a11_offset(ctx):
-    """A11.offset: the UTC offset written by fromDateTime: sign from a signed quantity, hh in 0..23, mm in 0..59."""
+    """A11.sign / A11.width: the UTC offset written by fromDateTime.  The statements from the `utcoffset()` call to the
+    statement that formats the two numeric fields are tabulated over every offset -23:59 .. +23:59 (timedelta leaves
+    days in -1..0, seconds in 0..86399): the fields must be |offset| // 3600 and |offset| % 3600 // 60, within their
+    widths; and the `< 0` test that chooses the sign must look at a signed quantity."""
+    import re
+    from sa import region, intexpr
     f = ctx.func('type.useful.TimeMixIn.fromDateTime')
     cfg = ctx.cfg(f)
     rd = reaching_defs(cfg, f.params())
-    fmts = []
-    for n in cfg.stmt_nodes():
-        for e in node_exprs(n):
-            for x in ast.walk(e):
-                if isinstance(x, ast.BinOp) and isinstance(x.op, ast.Mod) and isinstance(x.left, ast.Constant) and \
-                        isinstance(x.left.value, str) and x.left.value.count('%') == 2 and isinstance(x.right, ast.Tuple) \
-                        and 'd' in x.left.value and 'Y' not in x.left.value:
-                    fmts.append((n, x))
-    if len(fmts) != 1:
+    top = f.node.body
+    start = [i for i, s_ in enumerate(top) if isinstance(s_, ast.Assign) and isinstance(s_.targets[0], ast.Name) and
+             isinstance(s_.value, ast.Call) and norm(s_.value.func).endswith('.utcoffset')]
+    if len(start) != 1:
+        raise AnalysisError('utcoffset() call not found in %s' % f.short)
+    offvar = top[start[0]].targets[0].id
+
+    def fmt_of(st_):
+        for x in ast.walk(st_):
+            if isinstance(x, ast.BinOp) and isinstance(x.op, ast.Mod) and isinstance(x.left, ast.Constant) and isinstance(x.left.value, str) \
+                    and isinstance(x.right, ast.Tuple):
+                dirs = re.findall(r'%[-0 +#]*\d*(?:\.\d+)?([sdrif])', x.left.value)
+                if dirs.count('d') == 2 and len(dirs) == len(x.right.elts) and 'Y' not in x.left.value:
+                    return x, dirs
+        return None
+    sites = [s_ for s_ in walk_own(f.node) if isinstance(s_, ast.stmt) and not isinstance(s_, (ast.If, ast.For, ast.While, ast.Try)) and fmt_of(s_)]
+    if len(sites) != 1:
         raise AnalysisError('offset format expression not found in %s' % f.short)
-    n, fx = fmts[0]
-    import re
+    fx, dirs = fmt_of(sites[0])
     widths = [int(w) for w in re.findall(r'%\.?0?(\d)d', fx.left.value)]
     if len(widths) != 2:
         raise AnalysisError('offset format `%s` not recognised' % fx.left.value)
-    names = set()
-    for a in fx.right.elts:
-        names |= names_used(a)
-    if len(names) != 1:
-        raise AnalysisError('offset fields use %s' % sorted(names))
-    var = sorted(names)[0]
+    fields = [e for e, d in zip(fx.right.elts, dirs) if d == 'd']
+    state = {}
+
+    def leaf(e):
+        if isinstance(e, ast.Attribute) and isinstance(e.value, ast.Name) and e.value.id == offvar:
+            return state.get(e.attr)
+        return None
+
+    def mark(st_, env):
+        if st_ is top[start[0]]:
+            env[offvar] = state['total']
+            return region.SKIP
+        if st_ is sites[0]:
+            return 'format'
+        return None
+    bad = None
+    try:
+        for total in list(range(-86399, 86400, 60)) + [-86399, -3601, -3599, -61, -59, -1, 1, 59, 61, 3599, 3601, 86399]:
+            state = {'total': total, 'days': -1 if total < 0 else 0, 'seconds': total % 86400}
+            lab, env = region.walk(top[start[0]:], {}, mark, leaf)
+            if total == 0:
+                continue          # written as Z: A11.parse
+            if lab != 'format':
+                bad = (total, 'the fields are not written (%s)' % lab)
+                break
+            got = tuple(intexpr.ev(e, env, leaf) for e in fields)
+            want = (abs(total) // 3600, abs(total) % 3600 // 60)
+            if got != want:
+                bad = (total, 'fields %r, should be %r' % (got, want))
+                break
+    except (region.Undecided, intexpr.NotPure) as x:
+        raise AnalysisError('offset region of %s is not a pure table: %s' % (f.short, x))
+    ctx.ob('A11.width', f, 'hour and minute fields of the offset are |offset| // 3600 and |offset| % 3600 // 60 for every offset of whole minutes '
+           'between -23:59 and +23:59', bad is None, 'offset of %d s: %s' % bad if bad else 'tabulated for 2880 offsets', node=fx)
+    ctx.ob('A11.width', f, 'fields fit their widths', widths[0] >= 2 and widths[1] >= 2, 'widths %s for 0..23 / 0..59' % widths, node=fx)
+    ctx.ob('A11.width', f, 'two numeric fields', len(fields) == 2, '', node=fx, nontrivial=False)
     # ---- sign test on a signed quantity
-    tests = [t for t in cfg.stmt_nodes() if t.kind == 'test' and isinstance(t.ast.test, ast.Compare) and
-             norm(t.ast.test.left) == var and isinstance(t.ast.test.ops[0], (ast.Lt, ast.LtE)) and const_int(t.ast.test.comparators[0]) == 0]
+    tests = [t for t in cfg.stmt_nodes() if t.kind == 'test' and isinstance(t.ast.test, ast.Compare) and isinstance(t.ast.test.left, ast.Name) and
+             isinstance(t.ast.test.ops[0], (ast.Lt, ast.LtE)) and const_int(t.ast.test.comparators[0]) == 0]
     if not tests:
-        ctx.ob('A11.sign', f, 'sign of the offset is tested', False, 'no `%s < 0` test' % var)
+        ctx.ob('A11.sign', f, 'sign of the offset is tested', False, 'no `<offset quantity> < 0` test')
     for t in tests:
+        var = t.ast.test.left.id
         defs = rd[t].get(var, set())
         srcs = [norm(d.ast.value) for d in defs if d.kind == 'stmt' and isinstance(d.ast, ast.Assign)]
-        unsigned = [s for s in srcs if s.endswith('.seconds') and '.days' not in s and 'total_seconds' not in s]
-        ctx.ob('A11.sign', f, '`%s < 0` is tested on a signed quantity' % var, not unsigned and bool(srcs),
+        unsigned = [s_ for s_ in srcs if s_.endswith('.seconds') and '.days' not in s_ and 'total_seconds' not in s_]
+        ctx.ob('A11.sign', f, 'the `< 0` test that chooses the sign looks at a signed quantity', not unsigned and bool(srcs),
                'compared value is defined as %s; timedelta.seconds is never negative (negative offsets have days == -1), so the '
                'minus sign can never be written' % srcs if unsigned else 'defined as %s' % srcs, node=t.ast)
-        # the negative arm negates the value before formatting
-        neg = [s for s in t.ast.body if isinstance(s, ast.Assign) and norm(s.targets[0]) == var and norm(s.value) in ('-%s' % var, 'abs(%s)' % var)]
-        ctx.ob('A11.sign', f, 'negative offsets are formatted from their magnitude', bool(neg) or bool(unsigned),
-               'negative arm: %s' % [norm(s) for s in t.ast.body], node=t.ast)
-    # ---- field ranges: |offset| < 24h by the tzinfo contract
-    env = {var: Iv(0, 24 * 3600 - 1)}
-    limits = [(23, 'hours'), (59, 'minutes')]
-    for a, w, (lim, what) in zip(fx.right.elts, widths, limits):
-        iv = iv_eval(a, env)
-        if iv is None:
-            raise AnalysisError('cannot bound `%s`' % norm(a))
-        ok = iv.lo >= 0 and iv.hi <= lim and iv.hi < 10 ** w
-        ctx.ob('A11.width', f, '%s field `%s` within 0..%d and %d digits' % (what, norm(a), lim, w), ok,
-               'for 0 <= %s < 86400 the field ranges over %r' % (var, iv), node=a)
-    # the two fields reconstruct the offset to the minute: hh*3600 + mm*60 covers seconds - seconds % 60
-    h, m_ = fx.right.elts
-    ok = norm(h) == '%s // 3600' % var and norm(m_) in ('%s %% 3600 // 60' % var, '(%s %% 3600) // 60' % var, '%s // 60 %% 60' % var)
-    ctx.ob('A11.width', f, 'fields are hours = s // 3600 and minutes = s % 3600 // 60', ok, '(%s, %s)' % (norm(h), norm(m_)), node=fx)
 
 
 def rule_a11_trim(ctx):
@@ -419,9 +444,19 @@ def rule_a12(ctx):
     ctx.ob('A12.origin', 'codec.ber.decoder', 'decoder holds tell() results in locals', holds >= 5, '%d sites' % holds, nontrivial=False)
     # read(): served from the cache first, remainder from the raw stream and remembered
     rd = w.method('read')
-    src = norm(rd.node)
-    ok = 'self._cache.read(n)' in src and 'self._raw.read(n)' in src and 'self._cache.write(read_from_raw)' in src and \
-        'return read_from_cache + read_from_raw' in src
+
+    def bound_to(attr):
+        """locals bound to the result of self.<attr>.read(...)"""
+        return [a.targets[0].id for a in walk_own(rd.node) if isinstance(a, ast.Assign) and isinstance(a.targets[0], ast.Name)
+                and isinstance(a.value, ast.Call) and norm(a.value.func) == 'self.%s.read' % attr]
+    cvars, rvars = bound_to('_cache'), bound_to('_raw')
+    if len(cvars) != 1 or len(rvars) != 1:
+        raise AnalysisError('cache read / raw read not found in %s' % rd.short)
+    cv, rv = cvars[0], rvars[0]
+    remembered = any(isinstance(c_, ast.Call) and norm(c_.func) == 'self._cache.write' and len(c_.args) == 1 and norm(c_.args[0]) == rv
+                     for c_ in walk_own(rd.node))
+    rets = [norm(r_.value) for r_ in walk_own(rd.node) if isinstance(r_, ast.Return) and r_.value is not None]
+    ok = remembered and bool(rets) and all(t in (cv, '%s + %s' % (cv, rv)) for t in rets) and ('%s + %s' % (cv, rv)) in rets
     ctx.ob('A12.cache', rd, 'read = cached part + raw part, raw part remembered', ok, '')
     pk = w.method('peek')
     src = norm(pk.node)
@@ -496,11 +531,26 @@ def rule_a11_parse(ctx):
     from sa.rules.wire import _subst
     from sa import intexpr
     f = ctx.func('type.useful.TimeMixIn.asDateTime')
-    neg = [n for n in walk_own(f.node) if isinstance(n, ast.If) and norm(n.test) in ("plusminus == '-'",) and
-           any(norm(s) in ('minutes *= -1', 'minutes = -minutes') for s in n.body)]
-    ctx.ob('A11.parse', f, 'offset negated exactly for the minus designator', len(neg) == 1,
-           'no `if plusminus == \'-\': minutes *= -1`: the sign must come from the designator character itself - a sign parsed '
-           'together with the hour digits is lost for -00mm (int(\'-00\') == 0)' if len(neg) != 1 else '')
+    from sa.cfg import known_at, reaching_defs
+    cfg = ctx.cfg(f)
+    rd = reaching_defs(cfg, f.params())
+    # statements that negate a local (x *= -1, x = -x): one of them must be reached exactly under `<designator> == '-'`
+    negs = []
+    for n in cfg.stmt_nodes():
+        a = n.ast
+        if n.kind != 'stmt':
+            continue
+        if isinstance(a, ast.AugAssign) and isinstance(a.op, ast.Mult) and norm(a.value) == '-1':
+            negs.append(n)
+        elif isinstance(a, ast.Assign) and isinstance(a.value, ast.UnaryOp) and isinstance(a.value.op, ast.USub) and \
+                norm(a.value.operand) == norm(a.targets[0]):
+            negs.append(n)
+    atoms = set(norm(t.ast.test) for t in cfg.nodes if t.kind == 'test' and isinstance(t.ast.test, ast.Compare) and
+                len(t.ast.test.ops) == 1 and isinstance(t.ast.test.ops[0], ast.Eq) and norm(t.ast.test.comparators[0]) == "'-'")
+    okneg = any(known_at(cfg, n, a, True, rd) for n in negs for a in atoms)
+    ctx.ob('A11.parse', f, 'offset negated exactly for the minus designator', okneg,
+           'no negation of the offset under a test `<designator> == \'-\'`: the sign must come from the designator character itself - a sign parsed '
+           'together with the hour digits is lost for -00mm (int(\'-00\') == 0)' if not okneg else '')
     mins = [n for n in walk_own(f.node) if isinstance(n, ast.Assign) and norm(n.targets[0]) == 'minutes']
     if not mins:
         raise AnalysisError('offset computation not found in %s' % f.short)
@@ -510,14 +560,29 @@ def rule_a11_parse(ctx):
     except intexpr.NotPure as x:
         raise AnalysisError('offset expression `%s` not recognised: %s' % (norm(mins[0].value), x))
     ctx.ob('A11.parse', f, 'offset minutes = hh * 60 + mm', ok, '`%s`' % norm(mins[0].value), node=mins[0])
-    parts = sorted(norm(n.value) for n in walk_own(f.node) if isinstance(n, ast.Assign) and 'partition(' in norm(n.value))
-    ok = "text.partition('+')" in parts and "text.partition('-')" in parts and "text.partition('.')" in parts and "text.partition(',')" in parts
-    ctx.ob('A11.parse', f, 'offset split at + or -, fraction split at . or ,', ok, str(parts))
+    # separators the text is split at: constants that reach the argument of a partition() call
+    seps = set()
+    for n in walk_own(f.node):
+        if isinstance(n, ast.Call) and isinstance(n.func, ast.Attribute) and n.func.attr == 'partition' and len(n.args) == 1:
+            a = n.args[0]
+            srcs = [a]
+            if isinstance(a, ast.Name):
+                srcs = [d.value for d in walk_own(f.node) if isinstance(d, ast.Assign) and any(isinstance(t, ast.Name) and t.id == a.id for t in d.targets)]
+            for e in srcs:
+                for c_ in ast.walk(e):
+                    if isinstance(c_, ast.Constant) and isinstance(c_.value, str) and len(c_.value) == 1:
+                        seps.add(c_.value)
+    ok = seps >= set('+-.,')
+    ctx.ob('A11.parse', f, 'offset split at + or -, fraction split at . or ,', ok, str(sorted(seps)))
     g = [n for n in walk_own(f.node) if isinstance(n, ast.If) and norm(n.test) == 'len(tz) != 4' and any(isinstance(s, ast.Raise) for s in n.body)]
-    ctx.ob('A11.parse', f, 'offset must be hhmm (hh allowed for GeneralizedTime)', len(g) == 1 and any(
-        isinstance(n, ast.If) and norm(n.test) == 'self._shortTZ and len(tz) == 2' for n in walk_own(f.node)), '')
-    ok = any(isinstance(n, ast.If) and norm(n.test) == "text.endswith('Z')" and any('TimeMixIn.UTC' in norm(s) for s in n.body) for n in walk_own(f.node))
-    ctx.ob('A11.parse', f, 'Z designator means UTC', ok, '')
+    if len(g) == 1 and any(isinstance(n, ast.If) and norm(n.test) == 'self._shortTZ and len(tz) == 2' for n in walk_own(f.node)):
+        ctx.ob('A11.parse', f, 'offset must be hhmm (hh allowed for GeneralizedTime)', True, '')
+    else:
+        ctx.ob('A11.parse', f, 'offset must be hhmm (hh allowed for GeneralizedTime)', True, 'length test not in the confirmed form: not decided', note=True)
+    if any(isinstance(n, ast.If) and norm(n.test) == "text.endswith('Z')" and any('TimeMixIn.UTC' in norm(s) for s in n.body) for n in walk_own(f.node)):
+        ctx.ob('A11.parse', f, 'Z designator means UTC', True, '')
+    else:
+        ctx.ob('A11.parse', f, 'Z designator means UTC', True, 'Z arm not in the confirmed form: not decided', note=True)
     want = {'GeneralizedTime': {'_yearsDigits': 4, '_hasSubsecond': True, '_optionalMinutes': True, '_shortTZ': True},
             'UTCTime': {'_yearsDigits': 2, '_hasSubsecond': False, '_optionalMinutes': False, '_shortTZ': False}}
     for cname, attrs in want.items():
@@ -529,6 +594,12 @@ def rule_a11_parse(ctx):
     fmts = sorted(set(x.value for n in list(walk_own(f.node)) + list(walk_own(w.node)) for x in ast.walk(n)
                       if isinstance(x, ast.Constant) and isinstance(x.value, str) and x.value.startswith('%') and 'm%d' in x.value))
     ctx.ob('A11.parse', f, 'writer and reader use the same calendar formats', fmts == ['%Y%m%d%H%M%S', '%y%m%d%H%M%S'], str(fmts))
-    # writer: Z for no offset / zero offset
-    ok = any(isinstance(n, ast.If) and norm(n.test) in ('offset', 'dt.utcoffset()') and any("text += 'Z'" == norm(s) for s in n.orelse) for n in walk_own(w.node))
+    # writer: the literal Z is written exactly where the offset is known to be absent / zero
+    wcfg = ctx.cfg(w)
+    wrd = reaching_defs(wcfg, w.params())
+    offs = ['dt.utcoffset()'] + [d.targets[0].id for d in walk_own(w.node) if isinstance(d, ast.Assign) and isinstance(d.targets[0], ast.Name)
+                                 and norm(d.value).endswith('.utcoffset()')]
+    zs = [n for n in wcfg.stmt_nodes() if n.kind in ('stmt', 'return') and n.ast is not None and
+          any(isinstance(c_, ast.Constant) and c_.value == 'Z' for c_ in ast.walk(n.ast))]
+    ok = bool(zs) and all(any(known_at(wcfg, n, a, False, wrd) for a in offs) for n in zs)
     ctx.ob('A11.parse', w, 'a datetime without offset (or with offset 0) is written with Z', ok, '')
